@@ -795,11 +795,21 @@ __yd_add_y(dt_yd_t d, int n)
 
 #if defined ASPECT_DIFF && !defined YD_ASPECT_DIFF_
 #define YD_ASPECT_DIFF_
+static __attribute__((const)) unsigned int
+__yd_anniv(unsigned int y, struct __md_s md)
+{
+/* day of the year Y of month and day MD,
+ * 29 Feb in a non-leap year is treated as 01 Mar */
+	return __md_get_yday(y, md.m, md.d);
+}
+
 static __attribute__((const)) struct dt_ddur_s
 __yd_diff(dt_yd_t d1, dt_yd_t d2)
 {
 /* compute d2 - d1 entirely in terms of ymd but express the result as yd */
 	struct dt_ddur_s res = dt_make_ddur(DT_DURYD, 0);
+	struct __md_s md;
+	unsigned int ann;
 	signed int tgtd;
 	signed int tgty;
 
@@ -811,32 +821,18 @@ __yd_diff(dt_yd_t d1, dt_yd_t d2)
 		d2 = tmp;
 	}
 
-	/* first compute the difference in years */
+	/* we count the anniversaries of d1's month and day,
+	 * first compute the difference in years */
+	md = __yd_get_md(d1);
 	tgty = (d2.y - d1.y);
-	/* ... and days */
-	tgtd = (d2.d - d1.d);
-	/* add leap corrections, this is actually a matrix
-	 * ({L,N}x{B,A})^2, Leap/Non-leap, Before/After leap day */
-	if (UNLIKELY(__leapp(d1.y)) && LIKELY(d1.d >= 60)) {
-		/* LA?? */
-		if (UNLIKELY(d1.d == 60)) {
-			/* corner case, treat 29 Feb as 01 Mar */
-			;
-		} else if (!__leapp(d2.y)) {
-			/* LAN? */
-			tgtd++;
-		} else if (d2.d < 60) {
-			/* LALB */
-			tgtd++;
-		}
-	} else if (d1.d >= 60 && UNLIKELY(__leapp(d2.y)) && d2.d >= 60) {
-		/* NALA */
-		tgtd--;
-	}
-	/* add carry */
-	if (tgtd < 0) {
+	/* ... and days since the anniversary in d2's year */
+	if ((ann = __yd_anniv(d2.y, md)) <= d2.d) {
+		tgtd = d2.d - ann;
+	} else {
+		/* not there yet, go by last year's anniversary */
 		tgty--;
-		tgtd += 365 + ((__leapp(d2.y)) && d2.d >= 60);
+		tgtd = __get_ydays(d2.y - 1U) -
+			__yd_anniv(d2.y - 1U, md) + d2.d;
 	}
 
 	/* fill in the results */
